@@ -205,7 +205,16 @@ type mMate struct {
 	Opts        map[string]bool
 }
 
+// mCfg is one entry of an interface's `configs:` list: the same interface mocked once more into
+// the same file under another struct name, with options of its own.
+type mCfg struct {
+	Struct      string
+	VariantName string
+	Opts        map[string]bool
+}
+
 type mUnit struct {
+	Configs  []mCfg
 	Src      string // source text of a seeded random interface ("" for the fixed corpus)
 	Iface    mIface
 	Variant  mVariant
@@ -317,6 +326,21 @@ func mPrepare(c *core.Ctx) {
 		{Iface: mIface{"Embeds", ""}, Variant: mVariant{"matryer-pair-first", "matryer", map[string]bool{}, ""}, Mate: &mMate{mIface{"Basic", ""}, "matryer-pair-second-stub-resets", map[string]bool{"stub-impl": true, "with-resets": true}}},
 		{Iface: mIface{"Basic", ""}, Variant: mVariant{"matryer-pair-first-stub@iface", "matryer", map[string]bool{"stub-impl": true}, "interface"}, Mate: &mMate{mIface{"Twins", ""}, "matryer-pair-second-plain", map[string]bool{}}},
 	}
+	// one interface mocked several times into one file through its configs list, every entry with
+	// template-data of its own
+	pairs = append(pairs,
+		&mUnit{Iface: mIface{"VarOne", ""}, Variant: mVariant{"testify-configs", "testify", map[string]bool{}, ""}, Configs: []mCfg{
+			{"MockVarOneA", "testify-configs-1-unroll-true", map[string]bool{"unroll-variadic": true}},
+			{"MockVarOneB", "testify-configs-2-default", map[string]bool{}}}},
+		&mUnit{Iface: mIface{"VarTwo", ""}, Variant: mVariant{"testify-configs", "testify", map[string]bool{}, ""}, Configs: []mCfg{
+			{"MockVarTwoA", "testify-configs-1-default", map[string]bool{}},
+			{"MockVarTwoB", "testify-configs-2-unroll-true", map[string]bool{"unroll-variadic": true}},
+			{"MockVarTwoC", "testify-configs-3-unroll-false", map[string]bool{"unroll-variadic": false}}}},
+		&mUnit{Iface: mIface{"Basic", ""}, Variant: mVariant{"matryer-configs", "matryer", map[string]bool{}, ""}, Configs: []mCfg{
+			{"MockBasicA", "matryer-configs-1-stub", map[string]bool{"stub-impl": true}},
+			{"MockBasicB", "matryer-configs-2-plain", map[string]bool{}},
+			{"MockBasicC", "matryer-configs-3-resets", map[string]bool{"with-resets": true}}}},
+	)
 	for _, u := range pairs {
 		u.Pkg = strings.NewReplacer("-", "_", "@", "_at_").Replace(u.Variant.Name) + "_" + strings.ToLower(u.Iface.Name)
 		e.units = append(e.units, u)
@@ -345,6 +369,21 @@ func mPrepare(c *core.Ctx) {
 			default:
 				cfg.Set("template-data", td)
 			}
+		}
+		if len(u.Configs) > 0 {
+			var list []any
+			for _, ce := range u.Configs {
+				ey := world.NewY().Set("structname", ce.Struct)
+				if len(ce.Opts) > 0 {
+					td := world.NewY()
+					for _, k := range core.SortedKeys(ce.Opts) {
+						td.Set(k, ce.Opts[k])
+					}
+					ey.Set("template-data", td)
+				}
+				list = append(list, ey)
+			}
+			ic.Set("configs", list)
 		}
 		cfg.Sub("packages").Sub(mMod+"/corpus").Sub("interfaces").Set(u.Iface.Name, ic)
 		if u.Mate != nil {
@@ -420,6 +459,22 @@ func mPrepare(c *core.Ctx) {
 	b.WriteString(")\n\nfunc main() {\n\tmsim.Main([]msim.Registration{\n")
 	for _, u := range e.units {
 		if u.GenErr != "" || u.BuildErr != "" {
+			continue
+		}
+		if len(u.Configs) > 0 {
+			for _, ce := range u.Configs {
+				copts := "map[string]bool{"
+				for _, k := range core.SortedKeys(ce.Opts) {
+					copts += fmt.Sprintf("%q: %v, ", k, ce.Opts[k])
+				}
+				copts += "}"
+				cnew := fmt.Sprintf("func(t *msim.RecT) any { return &%s.%s{} }", u.Pkg, ce.Struct)
+				if u.Variant.Style == "testify" {
+					cnew = fmt.Sprintf("func(t *msim.RecT) any { return %s.New%s(t) }", u.Pkg, ce.Struct)
+				}
+				fmt.Fprintf(&b, "\t\t{Variant: %q, Style: %q, Opts: %s, Iface: %q, IfaceType: reflect.TypeOf((*corpus.%s)(nil)).Elem(), New: %s},\n",
+					ce.VariantName, u.Variant.Style, copts, u.Iface.Name, u.Iface.Name, cnew)
+			}
 			continue
 		}
 		opts := "map[string]bool{"
